@@ -126,4 +126,21 @@ def runD (sb : WState α × Book) : List (Event α) → Option (WState α × Boo
     | some (sb', _) => runD sb' es
     | none => none
 
+/-- has this writer object committed since it was created (`IndexWriter::new`, `rollback`) -/
+def sessStep (c : Bool) : Event α → Bool
+  | .commit _ => true
+  | .rollback => false
+  | _ => c
+
+/-- the hypothesis `bookRun` of `C02_bookkeeping_refines` read off the sequence of calls: `delete_all_documents` only before
+the first commit of the writer object; no sub-steps -/
+def bookHist (c : Bool) : List (Event α) → Bool
+  | [] => true
+  | e :: es =>
+    (match e with
+      | .deleteAll => !c
+      | .stamp _ => false
+      | .publish _ => false
+      | _ => true) && bookHist (sessStep c e) es
+
 end TantivyModel.Writer
